@@ -87,7 +87,7 @@ def main(tier, seed):
         "C10", tier, seed, run=run, machine="DeclBlock", mc_cfg="DeclBlock_%s.cfg" % tier, gen_cfg="DeclBlock_gen_%s.cfg" % tier,
         trace_module="DeclBlockTrace", adapter="adapters.declblock", sig=sig, corrupt=corrupt,
         tour_cap=20000 if q else 200000, n_walks=200 if q else 3000, walk_len=25 if q else 40, nontrivial=nontrivial,
-        variants=[{}, {}, {"comments": True}],
+        variants=[{}, {"asobj": True}, {"comments": True}],
         rule="transition tour: every reachable abstract list (TLC BFS) x every action of the alphabet, plus seeded random "
              "walks; a step is non-trivial if it changed the list or was rejected; distinct = distinct (pre-list, action)",
         assumptions=["values and names come from small alphabets; character-level normalisation is C05/C03's job",
